@@ -288,6 +288,8 @@ def dstep (s : DState) (toks : List String) : DState × List String :=
       if c.phase != .auth then (c, []) else
       let (items, ph) := onAuth c (how == "good")
       ({ c with expectHs := c.expectHs ++ items, phase := ph }, [])
+  | ["cinitclose", id] =>
+    withConn s id fun c => ({ c with phase := .closed, preds := [], expectHs := [], buf := [] }, [])
   | ["cinit", id, _] =>
     withConn s id fun c =>
       if c.phase != .init then (c, []) else
@@ -335,8 +337,9 @@ def dstep (s : DState) (toks : List String) : DState × List String :=
     else (s, [])
   | ["xvpc", id, _, _] => withNormal s id fun c => { c with usedXvp := true }
   -- ---------------------------------------------------------------- application actions
-  | ["cursor", w, h, xh, yh, _, _] =>
-    ({ s with scr := { s.scr with curW := natD w, curH := natD h, curXhot := natD xh, curYhot := natD yh },
+  | ["cursor", w, h, xh, yh, kind, _] =>
+    ({ s with scr := { s.scr with curW := natD w, curH := natD h, curXhot := natD xh, curYhot := natD yh,
+                                  curEmpty := kind == "2" && natD w == 1 && natD h == 1 },
               conns := s.conns.map fun c => { c with caps := { c.caps with cursorWasChanged := true } } }, [])
   | ["led", v] => ({ s with scr := { s.scr with led := intD v } }, [])
   | ["close", id] => withConn s id fun c => ({ c with phase := .closed, preds := [], expectHs := [], buf := [] }, [])
